@@ -11,7 +11,11 @@ META = {
             "histories). Tied to the code by a differential run of the real ValidatePassword against the model on "
             "generated stores/histories over all three user stores (memory, JSON file, SQLite), plus a model-free oracle "
             "(the harness's own record of every user's true password, format and permissions; the stored credential "
-            "after an upgrade must be a cost-12 bcrypt hash of the TRUE password and survive reopening the store).",
+            "after an upgrade must be a cost-12 bcrypt hash of the TRUE password and survive reopening the store). "
+            "A delimiter corpus runs first: every stored format (bcrypt at costs 4-6 and all three prefixes, SHA-256 hex, "
+            "{quoted} plaintext under both settings, junk) x passwords built from the formats' own delimiters at the edges "
+            "and inside ({, }, {{x}}, }x{, {}, $2a$-shaped, 64-hex-shaped) x candidates that are the password / the stored "
+            "text with delimiters stripped or added - none may be accepted, before or after the upgrade write-back.",
     "note": "Relative to PrimsOK: bcryptMatch (bcryptHash p) q <-> p = q, bcrypt hashes carry a $2a$/$2b$/$2y$ prefix, "
             "SHA-256 hex is injective and is neither bcrypt- nor {quoted}-shaped. The harness probes these on "
             "x/crypto/bcrypt every run: the equality hypothesis FAILS for passwords sharing the effective 72-byte "
@@ -52,6 +56,8 @@ def run(ctx):
     limits = [p for p in probes if not p.get("hypothesis_holds")]
     if rc == 0 and (not cases or not probes):
         ctx.broken.append("harness produced no cases/probes")
+    if rc == 0 and c.get("delim_attempts", 0) < 1000:
+        ctx.broken.append("the delimiter corpus did not run (delim_attempts=%d)" % c.get("delim_attempts", 0))
     ctx.coverage.update({
         "evaluations": len(cases),
         "distinct_nontrivial": c.get("distinct_nontrivial", 0),
@@ -60,6 +66,7 @@ def run(ctx):
                 "exists and the candidate is non-empty, i.e. the credential comparison is reached",
         "samples": [{"in": x["in"][:300], "impl": x["impl"], "desc": x.get("desc", "")} for x in cases[:3] + cases[-3:]],
         "counters": c,
+        "delimiter_corpus_attempts": c.get("delim_attempts", 0),
         "trusted_base_probes": len(probes),
         "trusted_base_limits": limits[:12],
     })
